@@ -23,6 +23,8 @@ Two layers in ONE `step` function.
     flight, results not yet dropped), `created`, `dead`; the payload destructor's `pdt k` is accepted
     only if neither a map entry nor a caller-held reference refers to `k` (`shared_ptr` counting
     itself is trusted).
+    Plain accesses to the two map objects (`mac`, seen through the plain-access tap on their tree headers)
+    are accepted only from the thread that holds `mapLock` (or from the destructor after its final release).
     Destructor (default build, no `ENABLE_TRIPWIRE`): lock; while the object map is not empty and
     fewer than 7 rounds: unlock, `yield` (odd round) / `sleep_for` (even round), lock; unlock; the
     maps die. -/
@@ -235,6 +237,7 @@ inductive Ev
   | retD
   | yld
   | slp
+  | mac                  -- a plain access to one of the two std::map objects (plain-access tap)
   deriving DecidableEq, Repr
 
 structure St where
@@ -305,6 +308,7 @@ def step (s : St) (t : Tid) (e : Ev) : Option St :=
   | .dWait c, .slp => if c % 2 = 0 then some (s.setPc t (.dRelock c)) else none
   | .dRelock c, .mlk => if s.lock = none then some ({ s with lock := some t }.setPc t (.dLocked c)) else none
   | .dDone, .retD => some (s.setPc t .idle)
+  | p, .mac => if s.lock = some t ∨ p = .dDone then some s else none
   | _, _ => none
 
 def run (es : List (Tid × Ev)) : Option St := runFrom step init es
